@@ -157,6 +157,9 @@ def console_script(workdir):
     return p
 
 
+FAKECLOCK_SITE = os.path.join(os.path.dirname(os.path.dirname(os.path.abspath(__file__))), "fakeclock_site")
+CLOCK_INSTANTS = [(2020, 1, 31, 43200), (2020, 3, 31, 0), (2027, 1, 31, 1), (2027, 10, 31, 86399), (2028, 2, 29, 43200), (2026, 12, 31, 86399), (2027, 5, 31, 3600),
+                  (2021, 7, 13, 20805), (2024, 12, 31, 86399), (1999, 12, 31, 86399)]
 CONSOLE_SCRIPT = {"path": None}      # written once, before any worker thread forks (avoids ETXTBSY)
 
 
@@ -244,7 +247,17 @@ def check(run):
             res["lib"] = (ut, lv)
             if (ut, lv) != (c["utype"], c["verdict"]) and not (c["verdict"] in ("TypeError", "ValueError") and lv in ("TypeError", "ValueError")):
                 res["drift"] = f"file pair built for ({c['utype']}, {c['verdict']}) is judged ({ut}, {lv}) by the library"
-            status, text = run_entry(entry, ["verify-metadata", tp, up], wd)
+            # the command's verdict is the library's whatever the calendar says: half of the runs under a clock frozen at a day-31, a leap day,
+            # the last second of a year ... (the library's verdict above was taken under the real clock; it does not read the clock)
+            env_clock = None
+            if r2.random() < 0.5:
+                import calendar
+                y, mo, d, sec = r2.choice(CLOCK_INSTANTS)
+                env_clock = {"CCTVERIF_HARNESS": harness_dir, "PYTHONPATH_PREFIX": FAKECLOCK_SITE,
+                             "CCTVERIF_FAKE_NOW": "%d:%s" % (calendar.timegm((y, mo, d, 0, 0, 0)) + sec, r2.choice(["0", "0", "0.7"]))}
+            status, text = run_entry(entry, ["verify-metadata", tp, up], wd, env_clock)
+            if env_clock:
+                entry = entry + " (clock at %04d-%02d-%02d)" % (y, mo, d)
             if (status == 0) != exp["zero"]:
                 res["problems"].append((f"verify-metadata via {entry}: exit status {'zero' if status == 0 else 'non-zero'} although the library's verdict on the same files is {lv}",
                                         {"status": status, "output": text[-1500:], "trusted": repr(trusted)[:3000], "untrusted": repr(un)[:3000]}))
